@@ -262,6 +262,7 @@ class Plan:
                     self.expected_raw.append(raw)
             else:
                 seen_malformed = True
+        self.has_malformed = seen_malformed or case["tail"][0] in ("tail:unreadable", "tail:announced-lt-6")
         self.n_items = sum((i[2] if len(i) > 2 else 1) for i in case["items"])
         self.tail_kind, tail = case["tail"]
         if self.tail_kind == "tail:announced-lt-6":
@@ -297,6 +298,9 @@ def _escape_bucket(plan_defect: bool, transport: str, e: BaseException, plan: "P
     s = exc_site(e)
     if "@xknx.knxip." in s and plan_defect:
         return f"C22:escape-from-parser:{transport}"
+    if plan is not None:
+        # the same crash site reached by a stream of well-formed frames only is another root cause
+        s += ":stream-with-malformed-frame" if plan.has_malformed else ":well-formed-frames-only"
     return f"C22:exception-escaped:{transport}:{s}"
 
 
